@@ -13,5 +13,10 @@ with conn.stream("GET", "https://example.com/big") as r:
     print("status", r.status, "conn inbound window while stream 1 open:", w0)
     # caller abandons the response without reading the body
 r2 = conn.request("GET", "https://example.com/next")
-print("second status", r2.status, "conn inbound window afterwards:", conn._h2_state.inbound_flow_control_window,
-      "=> credit never returned:", (2**24+65535) - conn._h2_state.inbound_flow_control_window)
+mgr = conn._h2_state._inbound_flow_control_window_manager
+# h2 hands credit back lazily: bytes acknowledged but not yet announced are in _bytes_processed
+leak = mgr.max_window_size - (mgr.current_window_size + mgr._bytes_processed)
+print("second status", r2.status, "conn inbound window afterwards:", mgr.current_window_size, "acknowledged, pending announcement:", mgr._bytes_processed,
+      "=> credit never returned:", leak)
+print("DEFECT-REPRODUCED" if leak > 0 else "not reproduced")
+raise SystemExit(1 if leak > 0 else 0)
